@@ -11,6 +11,7 @@ import (
 	"encoding/json"
 	"errors"
 	"io"
+	"math/rand"
 
 	"github.com/dolthub/go-mysql-server/sql"
 
@@ -30,6 +31,19 @@ type Case struct {
 	Right [][2]int64 `json:"right"`
 	Mode  int        `json:"mode"`
 	Pad   int        `json:"pad"` // extra bytes in every value (more chunks per entry)
+	// boundary-aware scenarios: the harness builds (base, left, right) itself from the chunk
+	// boundaries of a first bulk tree (all random choices from Seed) and reports them in Obs.In
+	Scen  string `json:"scen"`
+	Seed  int64  `json:"seed"`
+	N     int    `json:"n"`
+	KPad  int    `json:"kpad"` // > 0: wide keys (int, pad bytes): fan-out about 4 on every level
+	Shift int    `json:"shift"`
+}
+
+type In struct {
+	Base  [][2]int64 `json:"base"`
+	Left  [][2]int64 `json:"left"`
+	Right [][2]int64 `json:"right"`
 }
 
 type Op struct {
@@ -56,6 +70,9 @@ type PatchObs struct {
 }
 
 type Obs struct {
+	In      *In    `json:"in,omitempty"`
+	RHeight int    `json:"rheight"` // height of the right-hand tree
+	Note    string `json:"note,omitempty"`
 	Stream []PatchObs `json:"stream"`
 	DOps   []Op       `json:"dops"`
 	DCalls []Call     `json:"dcalls"`
@@ -67,12 +84,22 @@ type Obs struct {
 }
 
 var ctx = context.Background()
-var kd = val.NewTupleDescriptor(val.Type{Enc: val.Int64Enc})
+var kdPlain = val.NewTupleDescriptor(val.Type{Enc: val.Int64Enc})
+var kdWide = val.NewTupleDescriptor(val.Type{Enc: val.Int64Enc}, val.Type{Enc: val.ByteStringEnc})
+var kd = kdPlain
+var keyPad = 0
 var vd = val.NewTupleDescriptor(val.Type{Enc: val.Int64Enc}, val.Type{Enc: val.ByteStringEnc, Nullable: true})
 
 func key(ns tree.NodeStore, k int64) val.Tuple {
 	b := val.NewTupleBuilder(kd, ns)
 	b.PutInt64(0, k)
+	if keyPad > 0 {
+		p := make([]byte, keyPad)
+		for i := range p {
+			p[i] = byte(k*7 + int64(i)*13)
+		}
+		b.PutByteString(1, p)
+	}
 	t, err := b.Build(ctx, ns.Pool())
 	if err != nil {
 		panic(err)
@@ -163,8 +190,18 @@ func Run(raw json.RawMessage) (any, error) {
 		return nil, err
 	}
 	ns := tree.NewTestNodeStore()
-	base, left, right := mk(ns, c.Base, c.Pad), mk(ns, c.Left, c.Pad), mk(ns, c.Right, c.Pad)
+	kd, keyPad = kdPlain, 0
+	if c.KPad > 0 {
+		kd, keyPad = kdWide, c.KPad
+	}
 	o := Obs{DOps: []Op{}, DCalls: []Call{}, PRes: [][2]int64{}, PCalls: []Call{}}
+	if c.Scen != "" {
+		in, note := scenario(ns, c)
+		c.Base, c.Left, c.Right = in.Base, in.Left, in.Right
+		o.In, o.Note = in, note
+	}
+	base, left, right := mk(ns, c.Base, c.Pad), mk(ns, c.Left, c.Pad), mk(ns, c.Right, c.Pad)
+	o.RHeight = right.Height()
 
 	// route 1: chunk-level patch merge
 	merged, _, err := prolly.MergeMaps(ctx, left, right, base, func(l, r tree.Diff) (tree.Diff, bool) {
@@ -302,4 +339,176 @@ func Run(raw json.RawMessage) (any, error) {
 		o.DOps = append(o.DOps, Op{Key: k, Op: int(x.Op), Right: decode(r), Merged: decode(m)})
 	}
 	return o, nil
+}
+
+// index ranges [s, e) of the leaf chunks of a map over the sorted entry list
+func leafChunks(m prolly.Map) [][2]int {
+	var out [][2]int
+	pos := 0
+	_ = m.WalkNodes(ctx, func(_ context.Context, nd *tree.Node) error {
+		if nd.IsLeaf() && nd.Count() > 0 {
+			out = append(out, [2]int{pos, pos + nd.Count()})
+			pos += nd.Count()
+		}
+		return nil
+	})
+	return out
+}
+
+func withoutIdx(es [][2]int64, idx ...int) [][2]int64 {
+	drop := map[int]bool{}
+	for _, i := range idx {
+		drop[i] = true
+	}
+	var out [][2]int64
+	for i, e := range es {
+		if !drop[i] {
+			out = append(out, e)
+		}
+	}
+	return out
+}
+
+func withKey(es [][2]int64, k, v int64) [][2]int64 {
+	out := make([][2]int64, 0, len(es)+1)
+	done := false
+	for _, e := range es {
+		if !done && e[0] > k {
+			out = append(out, [2]int64{k, v})
+			done = true
+		}
+		if e[0] == k {
+			out = append(out, [2]int64{k, v})
+			done = true
+			continue
+		}
+		out = append(out, e)
+	}
+	if !done {
+		out = append(out, [2]int64{k, v})
+	}
+	return out
+}
+
+func clone(es [][2]int64) [][2]int64 { return append([][2]int64{}, es...) }
+
+// scenario builds (base, left, right) around the leaf chunk boundaries of a bulk tree.
+func scenario(ns tree.NodeStore, c Case) (*In, string) {
+	r := rand.New(rand.NewSource(c.Seed))
+	t0 := make([][2]int64, c.N)
+	for i := range t0 {
+		t0[i] = [2]int64{int64(10*i + 5), int64(r.Intn(400))}
+	}
+	ch := leafChunks(mk(ns, t0, c.Pad))
+	nc := len(ch)
+	in := &In{}
+	if nc < 5 {
+		in.Base, in.Left, in.Right = t0, t0, t0
+		return in, "too-few-chunks"
+	}
+	// the "shift": a left edit in an earlier (later) chunk so that left's patch generator is already at leaf level
+	shiftLeft := func(left [][2]int64, j int, after bool) [][2]int64 {
+		jj := j - 1
+		if after {
+			jj = j + 1
+		}
+		if jj < 0 || jj >= nc {
+			return left
+		}
+		s, e := ch[jj][0], ch[jj][1]
+		switch c.Shift {
+		case 1: // delete a key somewhere in the neighbouring chunk
+			k := t0[s+r.Intn(e-s)][0]
+			return withoutKey(left, k)
+		case 2: // delete the neighbour's key adjacent to the chunk
+			k := t0[e-1][0]
+			if after {
+				k = t0[s][0]
+			}
+			return withoutKey(left, k)
+		case 3: // insert a new key in the neighbouring chunk
+			return withKey(left, t0[s+r.Intn(e-s)][0]+2, 777)
+		case 4: // delete a key two chunks away
+			j2 := jj - 1
+			if after {
+				j2 = jj + 1
+			}
+			if j2 >= 0 && j2 < nc {
+				return withoutKey(left, t0[ch[j2][0]+r.Intn(ch[j2][1]-ch[j2][0])][0])
+			}
+		}
+		return left
+	}
+	switch c.Scen {
+	case "tail": // right edits only the last leaf of the base, the base ends on a leaf boundary, left appends
+		j := nc*2/3 + r.Intn(nc-1-nc*2/3)
+		e := ch[j][1]
+		mi := ch[j][0] + r.Intn(e-ch[j][0])
+		in.Base = clone(t0[:e])
+		in.Right = clone(t0[:e])
+		in.Right[mi][1]++
+		if r.Intn(3) == 0 {
+			in.Right = withKey(in.Right, t0[mi][0]+1, 555)
+		}
+		in.Left = clone(t0)
+	case "head": // mirror: right edits only the first leaf, left prepends
+		j := 1 + r.Intn(nc/3)
+		s := ch[j][0]
+		mi := s + r.Intn(ch[j][1]-s)
+		in.Base = clone(t0[s:])
+		in.Right = clone(t0[s:])
+		in.Right[mi-s][1]++
+		in.Left = clone(t0)
+	case "range-end", "range-start":
+		// right changes one whole-chunk's interior (a range patch), left edits exactly the last / first key of that chunk
+		j := 1 + r.Intn(nc-2)
+		s, e := ch[j][0], ch[j][1]
+		in.Base = clone(t0)
+		in.Right = clone(t0)
+		in.Left = clone(t0)
+		if e-s < 2 {
+			return in, "chunk-too-small"
+		}
+		if c.Scen == "range-end" {
+			in.Right[s+r.Intn(e-s-1)][1] += 1
+			in.Left[e-1][1] += 2
+			in.Left = shiftLeft(in.Left, j, false)
+		} else {
+			in.Right[s+1+r.Intn(e-s-1)][1] += 1
+			in.Left[s][1] += 2
+			in.Left = shiftLeft(in.Left, j, false)
+		}
+	case "removed-insert": // right removes the tail across whole chunks, left inserts a new key inside the removed part
+		j := nc/2 + r.Intn(nc-1-nc/2)
+		s := ch[j][0]
+		in.Base = clone(t0)
+		in.Right = clone(t0[:s])
+		jj := j + r.Intn(nc-j)
+		x := ch[jj][0] + r.Intn(ch[jj][1]-ch[jj][0])
+		in.Left = withKey(clone(t0), t0[x][0]+3, 888)
+		in.Left = shiftLeft(in.Left, j, false)
+	case "removed-insert-head": // mirror: right removes the head, left inserts inside it
+		j := 1 + r.Intn(nc/2)
+		e := ch[j][1]
+		in.Base = clone(t0)
+		in.Right = clone(t0[e:])
+		jj := r.Intn(j + 1)
+		x := ch[jj][0] + r.Intn(ch[jj][1]-ch[jj][0])
+		in.Left = withKey(clone(t0), t0[x][0]+3, 888)
+		in.Left = shiftLeft(in.Left, j, true)
+	default:
+		in.Base, in.Left, in.Right = t0, t0, t0
+		return in, "unknown-scenario"
+	}
+	return in, ""
+}
+
+func withoutKey(es [][2]int64, k int64) [][2]int64 {
+	var out [][2]int64
+	for _, e := range es {
+		if e[0] != k {
+			out = append(out, e)
+		}
+	}
+	return out
 }
